@@ -461,6 +461,7 @@ type Contract struct {
 	Assumes  []Clause // assume-config facts (listed in evidence)
 	Lemmas   []Clause // extra assertions proved at function exit
 	Notes    []string
+	Decreases *Clause // termination measure for recursive functions
 	Fresh    bool // result is freshly allocated
 	Opaque   bool // do not verify body even if available (external)
 }
@@ -471,6 +472,7 @@ type Define struct {
 	Ret    string
 	Body   SExpr // nil = uninterpreted
 	Text   string
+	Ghost  bool // mutable ghost state: a heap family indexed by the (single) parameter
 }
 
 type GlobalSpec struct {
@@ -492,7 +494,7 @@ var clauseKeywords = map[string]bool{
 	"func": true, "end": true, "props": true, "requires": true, "ensures": true, "modifies": true,
 	"pure": true, "loop": true, "invariant": true, "decreases": true, "unroll": true, "define": true,
 	"axiom": true, "constglobal": true, "inline": true, "nopanic": true, "ieee": true, "assume": true,
-	"trusted": true, "note": true, "fresh": true, "lemma": true, "opaque": true, "declare": true, "import": true,
+	"trusted": true, "note": true, "fresh": true, "lemma": true, "opaque": true, "declare": true, "import": true, "ghost": true,
 }
 
 func ParseContractFile(path string) (*ContractFile, error) {
@@ -559,11 +561,12 @@ func ParseContractFile(path string) (*ContractFile, error) {
 				cf.Imports[f[0]] = strings.Trim(f[1], "\"")
 			}
 			continue
-		case "define", "declare":
-			d, err := parseDefine(rc.text, rc.kw == "declare")
+		case "define", "declare", "ghost":
+			d, err := parseDefine(rc.text, rc.kw != "define")
 			if err != nil {
 				return nil, fmt.Errorf("%s:%d: %v", path, rc.line, err)
 			}
+			d.Ghost = rc.kw == "ghost"
 			cf.Defines[d.Name] = d
 			continue
 		case "axiom":
@@ -696,6 +699,8 @@ func ParseContractFile(path string) (*ContractFile, error) {
 			}
 			if curLoop != nil {
 				curLoop.Decreases = &c
+			} else {
+				cur.Decreases = &c
 			}
 		}
 	}
